@@ -355,6 +355,8 @@ class MoneyMarket(FinancialAssetMarket):
         dem_name = 'DEM_' + self.Code
         self.AddVariable(dem_name, 'Total demand for ' + self.LongName,'')
         dem_terms = []
+        self._CheckSingleIssuer([x for x in self.SearchListSource.GetSectors()
+                                 if x.HasF and x.Code == self.IssuerShortCode])
         for s in self.SearchListSource.GetSectors():
             if not s.HasF:
                 continue
@@ -413,6 +415,8 @@ class DepositMarket(FinancialAssetMarket):
         """
         dem_terms = []
         dem_name = 'DEM_' + self.Code
+        self._CheckSingleIssuer([x for x in self.SearchListSource.GetSectors()
+                                 if (not isinstance(x, Market)) and x.Code == self.IssuerShortCode])
         for s in self.SearchListSource.GetSectors():
             if isinstance(s, Market):
                 continue
